@@ -39,6 +39,11 @@ func getSamRecords(in io.Reader, chnl chan biogosam.Record, cdone chan bool, cer
 		return
 	}
 
+	if len(s.Header().Refs()) == 0 {
+		cerr <- errors.New("no reference sequence (@SQ line) in the sam header")
+		return
+	}
+
 	for {
 		rec, err := s.Read()
 
